@@ -220,24 +220,36 @@ pub fn c11x_bulk_forwarding() {
     let (src, sl) = any_src();
     kani::assume(sl <= cap);
     let boxed: bool = kani::any();
+    // generic helper: forces the `impl BufMut for &mut T` / `for Box<T>` forwarding impls (plain method syntax on
+    // `&mut inner` would auto-deref to the inner type's own impl)
+    fn put_via<B: BufMut, S: Buf>(mut b: B, s: S, also: &[u8]) {
+        b.put(s);
+        b.put_slice(also);
+    }
+    let extra: [u8; 1] = [0x5A];
+    let more = cap - sl > 0;
     if boxed {
         let mut b: Box<&mut SymBufMut<N>> = Box::new(&mut inner);
         check_mut_state(&mut b, cap);
         let sb = StepBuf::<3, 2> { data: src, len: sl, pos: 0 };
-        b.put(sb);
+        put_via(b, sb, if more { &extra[..] } else { &extra[..0] });
     } else {
         let mut r = &mut inner;
         check_mut_state(&mut r, cap);
         let sb = StepBuf::<3, 2> { data: src, len: sl, pos: 0 };
-        r.put(sb);
+        put_via(r, sb, if more { &extra[..] } else { &extra[..0] });
     }
-    assert!(inner.written == sl);
+    let sl_total = sl + if more { 1 } else { 0 };
+    if more {
+        assert!(inner.mem[lo + sl] == 0x5A);
+    }
+    assert!(inner.written == sl_total);
     if sl > 0 {
         let i = any_below(sl);
         assert!(inner.mem[lo + i] == src[i]);
     }
     let g = any_below(N);
-    if g < lo || g >= lo + sl {
+    if g < lo || g >= lo + sl_total {
         assert!(inner.mem[g] == G);
     }
     end_reached!();
